@@ -166,7 +166,16 @@ func envFileReader(c *an.Ctx, rule string) {
 						}
 						for _, e := range an.CallsIn(g, "(*bufio.Scanner).Err") {
 							ec, ok := e.(*ssa.Call)
-							if !ok || an.FieldProv(ec.Call.Args[0]) != field {
+							if !ok {
+								continue
+							}
+							same := an.FieldProv(ec.Call.Args[0]) == field
+							for _, src := range an.Sources(ec.Call.Args[0]) {
+								if src == ssa.Value(sc) {
+									same = true
+								}
+							}
+							if !same {
 								continue
 							}
 							if fate := p.ErrFate(ec, noReturn); fate.Kind == "propagated" || fate.Kind == "converted" {
